@@ -433,3 +433,28 @@ def emit_reflect(T, namespace, path, note):
     f.list_def("variantPayloadType", "Nat", [nc(PT.get(p, p)) for _, p in T["operand_enum"]])
     f.list_def("displayArms", "Nat × Nat", [f"({vnames.index(v)}, {dict([('{:?}', 0), ('%{}', 1), ('{:?}[3..]', 2)]).get(fm, 9)})" for v, fm in R["display"]])
     return write_if_changed(path, f.text())
+
+
+def emit_disas(T, namespace, path, note):
+    from rusttok import TranslateError
+    hdr = T["header"]
+    mk = [m["name"] for m in hdr["masks"]]
+    vnames = [v for v, _ in T["operand_enum"]]
+    tables, (ids, fwd) = T["disas_operand"]
+    f = LeanFile(namespace, [], note)
+    rows = []
+    for t in tables:
+        if t["type"] not in mk:
+            raise TranslateError("rspirv/binary/autogen_disas_operand.rs", t["type"], "unknown mask type")
+        consts = dict(next(m for m in hdr["masks"] if m["name"] == t["type"])["consts"])
+        if t["empty"] != "None" or t["sep"] != "|":
+            raise TranslateError("rspirv/binary/autogen_disas_operand.rs", t["type"], "unexpected empty name / separator")
+        for fl, _ in t["rows"]:
+            if fl not in consts:
+                raise TranslateError("rspirv/binary/autogen_disas_operand.rs", t["type"], f"unknown flag {fl}")
+        rr = ", ".join(f"({consts[fl]}, {nc(nm)})" for fl, nm in t["rows"])
+        rows.append(f"({mk.index(t['type'])}, [{rr}])")
+    f.list_def("maskNames", "Nat × List (Nat × Nat)", rows)
+    f.list_def("forwarded", "Nat", [str(vnames.index(v)) for v in fwd])
+    f.list_def("idDispatch", "Nat", [str(vnames.index(v)) for v in ids])
+    return write_if_changed(path, f.text())
